@@ -417,10 +417,7 @@ func (v *Vue) callFunc(ctx *VueContext, fn any, args ...any) (any, error) {
 	case 2:
 		// Two return values - second should be error
 		result := out[0].Interface()
-		if out[1].IsNil() {
-			return result, nil
-		}
-		if err, ok := out[1].Interface().(error); ok {
+		if err, ok := out[1].Interface().(error); ok && err != nil {
 			return result, err
 		}
 		return result, nil
